@@ -713,6 +713,7 @@ class Item:
                     parts.append(cur)
                 fmt = render(parts[0]).strip()
                 rest = [render(p_).strip() for p_ in parts[1:]]
+                fmt, rest = canon_format(fmt, rest)
                 new = tokenize("%s(%s, (%s))" % (fn, fmt, "".join(r + ", " for r in rest)))
                 for z in new:
                     z.line = t.line
@@ -843,6 +844,111 @@ class Item:
         self.toks[c:c] = ins
         self.toks[c + len(ins)].ws = "\n"
         self.log.append({"kind": "contract", "at": "loop-end:%d" % k, "text": text.strip()})
+
+    def inline_helpers(self, repo, names):
+        """Calls `NAME(args)` to a free function NAME of the same source file -- one the unit does not know (a helper a
+        change introduced) -- are replaced by the helper's body as a block expression:
+            { let __h1 = a1; let __h2 = a2; let p1: T1 = __h1; let p2: T2 = __h2; { body } }
+        Only for helpers without generics, `self`, `return` or `?` (an early exit inside a block would leave the CALLER),
+        with plain `name: Type` parameters and no recursion.  Evaluating the arguments first and binding them under the
+        parameter names with the declared types is what a call does; nothing else of the helper is assumed."""
+        try:
+            ftoks = tokenize(open(resolve_source(repo, self.relpath), encoding="utf-8").read())
+        except (OSError, LostAnchor):
+            return 0
+        done = 0
+        for name in names:
+            try:
+                st, o, c = locate(ftoks, ["fn " + name])
+            except LostAnchor:
+                continue
+            # signature tokens: fn NAME ( params ) [-> T] {
+            k = st
+            while ftoks[k].s != "fn":
+                k += 1
+            if ftoks[k + 2].s != "(":
+                continue          # generics
+            pc = match_close(ftoks, k + 2)
+            ptoks = ftoks[k + 3:pc]
+            body = ftoks[o:c + 1]
+            btxt = texts(body)
+            if "return" in btxt or "?" in btxt or "await" in btxt or any(btxt[i] == name and btxt[i + 1] == "(" for i in range(len(btxt) - 1)):
+                continue
+            # split parameters at depth-0 commas (tracking <> as well)
+            params = []
+            cur = []
+            d = 0
+            ang = 0
+            ok = True
+            for i, t in enumerate(ptoks):
+                if t.s in OPEN:
+                    d += 1
+                elif t.s in CLOSE:
+                    d -= 1
+                elif t.s == "<":
+                    ang += 1
+                elif t.s == ">" and not (i > 0 and ptoks[i - 1].s in ("-", "=")):
+                    ang -= 1
+                if t.s == "," and d == 0 and ang == 0:
+                    params.append(cur)
+                    cur = []
+                else:
+                    cur.append(t)
+            if cur:
+                params.append(cur)
+            plist = []
+            for pr in params:
+                tx = texts(pr)
+                mut = False
+                if tx and tx[0] == "mut":
+                    mut = True
+                    tx = tx[1:]
+                    pr = pr[1:]
+                if len(tx) < 3 or tx[1] != ":" or not IDENT_RE.fullmatch(tx[0]) or tx[0] == "self":
+                    ok = False
+                    break
+                plist.append((mut, tx[0], render(pr[2:]).strip()))
+            if not ok:
+                continue
+            # call sites in this item
+            T = self.toks
+            i = len(T) - 2
+            while i >= 1:
+                if T[i].s == name and T[i + 1].s == "(" and T[i - 1].s not in (".", ":", "fn") and T[i].line != 0:
+                    ac = match_close(T, i + 1)
+                    args = []
+                    cur = []
+                    d = 0
+                    for t in T[i + 2:ac]:
+                        if t.s in OPEN:
+                            d += 1
+                        elif t.s in CLOSE:
+                            d -= 1
+                        if t.s == "," and d == 0:
+                            args.append(cur)
+                            cur = []
+                        else:
+                            cur.append(t)
+                    if cur:
+                        args.append(cur)
+                    if len(args) != len(plist):
+                        i -= 1
+                        continue
+                    line = T[i].line
+                    new = [Tok(" ", "{", line)]
+                    for n, a in enumerate(args):
+                        new += [Tok(" ", "let", line), Tok(" ", "__h%d" % (n + 1), line), Tok(" ", "=", line)] + [Tok((t.ws or " ") if j == 0 else t.ws, t.s, t.line) for j, t in enumerate(a)] + [Tok("", ";", line)]
+                    for n, (mut, pn, ty) in enumerate(plist):
+                        new += tokenize(" let %s%s: %s = __h%d;" % ("mut " if mut else "", pn, ty, n + 1), line0=line)
+                    new += [Tok((t.ws or " ") if j == 0 else t.ws, t.s, t.line) for j, t in enumerate(body)] + [Tok(" ", "}", line)]
+                    T[i:ac + 1] = new
+                    done += 1
+                i -= 1
+            if done:
+                self.log.append({"kind": "inline-helper", "name": name, "calls": done,
+                                 "why": "call to a free function of the same file that the unit does not know (introduced by a change): replaced by its body "
+                                        "with the arguments bound to the parameter names (no `return` / `?` / generics in the helper)"})
+        return done
 
     def normalise_wild_closure_params(self):
         """`|_| e` -> `|_e| e` (after the declared edits): Verus rejects `_` as a closure parameter; naming an unused
@@ -1440,11 +1546,80 @@ def find_const(repo, relpath, name):
                 j += 1
             seg = [Tok(t.ws, t.s, t.line) for t in toks[i:j + 1]]
             seg[0].ws = ""
+            # elided lifetimes in a const's type are 'static; Verus wants them written out
+            k2 = 0
+            in_ty = False
+            while k2 < len(seg):
+                if seg[k2].s == ":" and not in_ty:
+                    in_ty = True
+                elif seg[k2].s == "=" and in_ty:
+                    break
+                elif in_ty and seg[k2].s == "&" and k2 + 1 < len(seg) and not seg[k2 + 1].s.startswith("'"):
+                    seg.insert(k2 + 1, Tok("", "'static", seg[k2].line))
+                    if k2 + 2 < len(seg) and not seg[k2 + 2].ws:
+                        seg[k2 + 2].ws = " "
+                k2 += 1
             txt = render(seg).strip()
             if txt.startswith("static"):
                 txt = "const" + txt[len("static"):]
             return "pub " + txt
     return None
+
+
+def canon_format(fmt, rest):
+    """Canonical spelling of a format string and its arguments: every placeholder gets an explicit position --
+    `{}` the next implicit one, `{name}` (an inline capture) the position of `name` appended to the arguments once --
+    so that `format!("{:08X}{:x}", a, b)`, `format!("{0:08X}{1:x}", a, b)` and `format!("{a:08X}{b:x}")` become the same
+    text.  The format specs (`:08X`) are kept verbatim.  Anything unusual (raw strings, `name = expr` arguments,
+    `$` width / precision arguments, nested braces) is left as it is."""
+    if not (fmt.startswith('"') and fmt.endswith('"')) or "\\" in fmt or any(re.match(r"^[A-Za-z_][A-Za-z0-9_]*\s*=[^=]", r) for r in rest):
+        return fmt, rest
+    body = fmt[1:-1]
+    out = []
+    args = list(rest)
+    nextpos = 0
+    i = 0
+    n = len(body)
+    while i < n:
+        c = body[i]
+        if c == "{":
+            if i + 1 < n and body[i + 1] == "{":
+                out.append("{{")
+                i += 2
+                continue
+            j = body.find("}", i)
+            if j < 0:
+                return fmt, rest
+            inner = body[i + 1:j]
+            if "{" in inner or "$" in inner:
+                return fmt, rest
+            arg, sep, spec = inner.partition(":")
+            arg = arg.strip()
+            if arg == "":
+                idx = nextpos
+                nextpos += 1
+            elif arg.isdigit():
+                idx = int(arg)
+            elif IDENT_RE.fullmatch(arg):
+                if arg in args[len(rest):]:
+                    idx = len(rest) + args[len(rest):].index(arg)
+                else:
+                    args.append(arg)
+                    idx = len(args) - 1
+            else:
+                return fmt, rest
+            out.append("{%d%s%s}" % (idx, sep, spec))
+            i = j + 1
+            continue
+        if c == "}":
+            if i + 1 < n and body[i + 1] == "}":
+                out.append("}}")
+                i += 2
+                continue
+            return fmt, rest
+        out.append(c)
+        i += 1
+    return '"' + "".join(out) + '"', args
 
 
 def find_type_alias(repo, relpath, name):
